@@ -37,7 +37,7 @@ Qed.
 
 (* the two "return 1" cases need no hypothesis at all *)
 Lemma legacy_one_cases t idx code ht :
-  (length (t_ins t) <= idx)%nat \/ (ht_base ht = 3 /\ (length (t_outs t) <= idx)%nat) ->
+  (length (t_ins t) <= idx)%nat \/ (ht_base5 ht = 3 /\ (length (t_outs t) <= idx)%nat) ->
   legacy_preimage t idx code ht = Ok None.
 Proof.
   intros H. unfold legacy_preimage.
